@@ -13,6 +13,7 @@ for p in sorted(glob.glob('/verif/seeded/C*/meta.json')):
     notes = d.get('needs_to_manifest', '')
     m = re.search(r'##\s*(?:patch%s\.diff|Patch %s|patch %s)[^\n]*' % (n, n, n), notes)
     title = re.sub(r'^##\s*(patch\d\.diff|Patch \d|patch \d)\s*[-:–—]*\s*', '', m.group(0)).strip() if m else ''
+    title = d.get('title') or title
     if not title:
         diff = open(os.path.join(os.path.dirname(p), 'patch.diff')).read()
         files = re.findall(r'^\+\+\+ b/(\S+)', diff, re.M)
